@@ -50,6 +50,9 @@ pub enum SVal {
     CollectSeq(Vec<SVal>),
     CollectMap(Vec<(SVal, SVal)>),
     CollectStr(String),
+    /// struct whose fields marked `true` are skipped through the `skip_field` hook
+    /// (`#[serde(skip_serializing_if)]`)
+    StructSkip(Vec<(&'static str, SVal, bool)>),
     /// std types whose Serialize impl branches on `is_human_readable` (text form vs compact form)
     Ip(std::net::IpAddr),
     /// serializes `true` when the serializer says it is human readable, `false` otherwise
@@ -137,6 +140,18 @@ impl Serialize for SVal {
             SVal::CollectSeq(v) => s.collect_seq(v.iter()),
             SVal::CollectMap(v) => s.collect_map(v.iter().map(|(k, x)| (k, x))),
             SVal::CollectStr(v) => s.collect_str(v),
+            SVal::StructSkip(v) => {
+                let kept = v.iter().filter(|(_, _, skip)| !skip).count();
+                let mut q = s.serialize_struct("S", kept)?;
+                for (k, x, skip) in v {
+                    if *skip {
+                        q.skip_field(k)?;
+                    } else {
+                        q.serialize_field(k, x)?;
+                    }
+                }
+                q.end()
+            }
             SVal::Ip(a) => a.serialize(s),
             SVal::HumanReadableProbe => {
                 let hr = s.is_human_readable();
@@ -266,6 +281,10 @@ fn image(v: &SVal) -> Img {
             }
         }
         SVal::Struct(f) => fields(f),
+        SVal::StructSkip(f) => {
+            let kept: Vec<(&'static str, SVal)> = f.iter().filter(|(_, _, skip)| !skip).map(|(k, x, _)| (*k, x.clone())).collect();
+            fields(&kept)
+        }
         SVal::StructVariant(n, f) => tagged(n, fields(f)),
         SVal::Fail => Img::Err,
     }
@@ -282,6 +301,7 @@ fn json_representable(v: &SVal) -> bool {
         SVal::Seq(v) | SVal::Tuple(v) | SVal::TupleStruct(v) | SVal::TupleVariant(_, v) | SVal::CollectSeq(v) => v.iter().all(json_representable),
         SVal::Map(e) | SVal::CollectMap(e) => e.iter().all(|(k, x)| matches!(k, SVal::Str(_) | SVal::Ip(_)) && json_representable(x)),
         SVal::Struct(f) | SVal::StructVariant(_, f) => f.iter().all(|(_, x)| json_representable(x)),
+        SVal::StructSkip(f) => f.iter().all(|(_, x, skip)| *skip || json_representable(x)),
         SVal::Fail => false,
         _ => true,
     }
@@ -341,6 +361,7 @@ fn kind_name(v: &SVal) -> &'static str {
         SVal::CollectSeq(_) => "collect_seq",
         SVal::CollectMap(_) => "collect_map",
         SVal::CollectStr(_) => "collect_str",
+        SVal::StructSkip(_) => "struct_with_skipped_fields",
         SVal::Ip(_) => "ip_addr",
         SVal::HumanReadableProbe => "human_readable_probe",
         SVal::Fail => "fail",
@@ -414,6 +435,10 @@ fn leaves() -> Vec<SVal> {
     v.push(SVal::Ip("127.0.0.1".parse().unwrap()));
     v.push(SVal::Ip("::1".parse().unwrap()));
     v.push(SVal::HumanReadableProbe);
+    v.push(SVal::StructSkip(vec![("name", SVal::Str("Frank".into()), false), ("nickname", SVal::None, true), ("referrer", SVal::None, false), ("tags", SVal::Seq(vec![]), true)]));
+    v.push(SVal::StructSkip(vec![("a", SVal::I8(1), true)]));
+    v.push(SVal::StructSkip(vec![("a", SVal::I8(1), true), ("b", SVal::Fail, true), ("c", SVal::I8(3), false)]));
+    v.push(SVal::Seq(vec![SVal::StructSkip(vec![("x", SVal::I8(1), false), ("y", SVal::I8(2), true)])]));
     v.push(SVal::Char(char::MAX));
     v.push(SVal::Char('\u{10000}'));
     v.push(SVal::Char('\u{ffff}'));
@@ -659,6 +684,24 @@ struct FlatOk {
     rest: BTreeMap<String, u8>,
 }
 
+#[derive(Serialize)]
+struct Skippy {
+    name: String,
+    #[serde(skip_serializing_if = "Option::is_none")]
+    nickname: Option<String>,
+    referrer: Option<String>,
+    #[serde(skip_serializing_if = "Vec::is_empty")]
+    tags: Vec<String>,
+}
+#[derive(Serialize)]
+enum SkippyEnum {
+    V {
+        a: u8,
+        #[serde(skip_serializing_if = "Option::is_none")]
+        b: Option<u8>,
+    },
+}
+
 fn derived(acc: &mut Acc) {
     fn one<T: Serialize>(name: &str, v: &T, must_fail: bool, acc: &mut Acc) {
         acc.count("executions", 1);
@@ -687,6 +730,10 @@ fn derived(acc: &mut Acc) {
     let mut ik = BTreeMap::new();
     ik.insert(5i128, 1u8);
     one("i128-keyed-map", &ik, true, acc);
+    one("struct-with-skipped-fields", &Skippy { name: "Frank".into(), nickname: None, referrer: None, tags: vec![] }, false, acc);
+    one("struct-variant-with-skipped-field", &SkippyEnum::V { a: 1, b: None }, false, acc);
+    one("ip-address", &std::net::IpAddr::from([127, 0, 0, 1]), false, acc);
+    one("socket-address", &std::net::SocketAddr::from(([10, 0, 0, 1], 8080)), false, acc);
     one("tuple-of-options", &(Some(1u8), None::<u8>, Some("s")), false, acc);
 }
 
